@@ -240,6 +240,14 @@ impl Value for PVal {
     fn write(&self, writer: impl ValueWriter) {
         match self {
             PVal::Str(s) => writer.string(s),
+            // every other value hands its dimensions over through an iterator without an exact size
+            // hint (lower bound 0), as a filtering user-written Value would
+            PVal::Metric { obs, unit, dims, flags } if (dims.len() + obs.len()) % 2 == 1 => writer.metric(
+                obs.iter().map(|o| o.to_observation()),
+                *unit,
+                dims.iter().filter(|_| true).map(|(k, v)| (k.as_str(), v.as_str())),
+                flags.map(|f| f()).unwrap_or(MetricFlags::empty()),
+            ),
             PVal::Metric { obs, unit, dims, flags } => writer.metric(
                 obs.iter().map(|o| o.to_observation()),
                 *unit,
